@@ -294,7 +294,14 @@ func (r *Rec) saveReplay(sub string, sc any, vs []V) string {
 	dir := filepath.Join(r.Root, "replay", r.Prop)
 	os.MkdirAll(dir, 0o755)
 	p := filepath.Join(dir, sub+"-"+hex.EncodeToString(sum[:6])+".json")
-	out, _ := json.MarshalIndent(replayFile{Property: r.Prop, Sub: sub, Violations: vs, Scenario: js}, "", "  ")
+	short := make([]V, len(vs))
+	for i, v := range vs {
+		if len(v.What) > 1500 {
+			v.What = v.What[:1500] + " ..."
+		}
+		short[i] = v
+	}
+	out, _ := json.MarshalIndent(replayFile{Property: r.Prop, Sub: sub, Violations: short, Scenario: js}, "", "  ")
 	os.WriteFile(p, append(out, '\n'), 0o644)
 	return p
 }
@@ -426,8 +433,9 @@ func Run[S any](t *testing.T, r *Rec, sp Spec[S]) {
 		if rf.Sub != sp.Name {
 			return
 		}
+		vs := r.Filter(exec(sc))
 		r.count(sp.Name, sc, info(sc))
-		for _, v := range r.Filter(exec(sc)) {
+		for _, v := range vs {
 			r.addViolation(sp.Name, v, path)
 			t.Fail()
 		}
@@ -474,8 +482,8 @@ func Run[S any](t *testing.T, r *Rec, sp Spec[S]) {
 	flag.Set("rapid.seed", strconv.FormatUint(seed*1000003+hash64(sp.Name)%1000003+1, 10))
 	ok := t.Run(sp.Name, rapid.MakeCheck(func(rt *rapid.T) {
 		sc := sp.Gen(rt)
-		r.count(sp.Name, sc, info(sc))
 		vs := r.Filter(exec(sc))
+		r.count(sp.Name, sc, info(sc))
 		if len(vs) > 0 {
 			last = &failing{sc, vs}
 			rt.Fatalf("%s: %d violation(s), first: [%s] %s", sp.Name, len(vs), vs[0].Sig, vs[0].What)
@@ -571,4 +579,55 @@ func (q *QS) UnmarshalJSON(b []byte) error {
 	}
 	*q = QS(u)
 	return nil
+}
+
+// Abort records a violation that makes it unsafe to continue in this process
+// (a computation that does not terminate keeps burning CPU and memory in a
+// goroutine that cannot be killed): the scenario is saved as the replay file,
+// the shard file is flushed and the process exits. No shrinking happens.
+func (r *Rec) Abort(sub string, sc any, v V) {
+	if len(r.Filter([]V{v})) == 0 {
+		r.Flush()
+		os.Exit(0)
+	}
+	p := os.Getenv("VERIF_REPLAY")
+	if p == "" {
+		p = r.saveReplay(sub, sc, []V{v})
+	}
+	r.addViolation(sub, v, p)
+	r.clearJournal()
+	r.Flush()
+	os.Exit(1)
+}
+
+// Stack returns the current goroutine's stack (for use in recover handlers).
+func Stack() string { return string(debug.Stack()) }
+
+// PanicSite names the first non-runtime function below the panic in a stack.
+func PanicSite(stack string) string { return panicSite(stack) }
+
+// FuzzReport is the reporting path of native fuzz targets (which run in worker
+// processes of the Go fuzzer, so they cannot share the shard file): known
+// findings are filtered; for anything else the scenario is saved as a replay
+// file and one JSON line is appended to $VERIF_FUZZ_OUT. Returns true if the
+// target must fail.
+func FuzzReport(prop, sub string, sc any, vs []V) bool {
+	r := Get(prop)
+	vs = r.Filter(vs)
+	if len(vs) == 0 {
+		return false
+	}
+	p := r.saveReplay(sub, sc, vs)
+	if out := os.Getenv("VERIF_FUZZ_OUT"); out != "" {
+		if f, err := os.OpenFile(out, os.O_APPEND|os.O_CREATE|os.O_WRONLY, 0o644); err == nil {
+			what := vs[0].What
+			if len(what) > 1500 {
+				what = what[:1500]
+			}
+			js, _ := json.Marshal(violation{Sub: sub, Sig: vs[0].Sig, What: what, Replay: p})
+			f.Write(append(js, '\n'))
+			f.Close()
+		}
+	}
+	return true
 }
